@@ -45,6 +45,8 @@ import (
 	"github.com/0chain/common/core/util"
 	"github.com/herumi/bls-go-binary/bls"
 	"go.uber.org/zap"
+
+	"verif/harness/rec"
 )
 
 // Key is one identity of the key ring.
@@ -109,6 +111,8 @@ type World struct {
 	CurCache                 *statecache.BlockCache
 	Now                      common.Timestamp
 	names                    map[string]string // id -> abstract name
+	Rec                      *rec.Recorder     // last recorder used by ExecRec (BlockTwin events go there)
+	curChargeable            int
 	cancel                   context.CancelFunc
 }
 
@@ -423,6 +427,10 @@ func (w *World) BeginBlock(on ...*block.Block) *block.Block {
 // EndBlock seals the current block: sets its state, makes it the head.
 func (w *World) EndBlock() *block.Block {
 	b := w.Cur
+	if w.Rec != nil && w.curChargeable > 0 && os.Getenv("VERIF_NO_TWIN") == "" {
+		w.twinBlock()
+	}
+	w.curChargeable = 0
 	b.ClientState = w.CurState
 	b.ClientStateHash = w.CurState.GetRoot()
 	b.SetStateStatus(block.StateSuccessful)
